@@ -6,6 +6,15 @@ export CARGO_NET_OFFLINE=true
 mkdir -p target .work evidence replays
 ( cd engines/simx && CARGO_TARGET_DIR=../../target/simx cargo build --release --offline 2>&1 | tail -2 )
 ( cd engines/seqx && CARGO_TARGET_DIR=../../target/seqx cargo build --release --offline 2>&1 | tail -2 )
-python3 engines/mirror/mirror.py shuttle /repo /tmp/vx-mirror-shuttle-$(id -u) >/dev/null && ( cd /tmp/vx-mirror-shuttle-$(id -u) && CARGO_TARGET_DIR=$OLDPWD/target/shutx cargo build --release --offline 2>&1 | tail -2 ); rm -rf /tmp/vx-mirror-shuttle-$(id -u)
-python3 engines/mirror/mirror.py loom /repo /tmp/vx-mirror-loom-$(id -u) >/dev/null && ( cd /tmp/vx-mirror-loom-$(id -u) && CARGO_TARGET_DIR=$OLDPWD/target/loomx cargo build --release --offline 2>&1 | tail -2 ); rm -rf /tmp/vx-mirror-loom-$(id -u)
+# The mirror engines are built by the dispatcher itself (same scratch path as the checks use, so cargo reuses the build).
+python3 - <<'PY'
+import importlib.machinery, importlib.util, os
+loader = importlib.machinery.SourceFileLoader("vxcheck", os.path.join(os.getcwd(), "check"))
+spec = importlib.util.spec_from_loader("vxcheck", loader)
+m = importlib.util.module_from_spec(spec)
+loader.exec_module(m)
+m.build_mirror("shuttle", "shutx")
+m.build_mirror("loom", "loomx")
+print("mirrors built")
+PY
 echo "setup done"
